@@ -504,7 +504,7 @@ def rule_cli2(prog, rep, tier, anchor="__main__.main", sub="sync"):
     truth_opt = next((o for o in opts if o.choices), None)
     if truth_opt is None or len(nullable) < 4:
         raise AnalysisError("CLI-2: sync CLI model incomplete (nullable %r, choice option %r)" % (nullable, truth_opt))
-    fi = prog.fn(anchor)
+    fi = prog.inl(prog.fn(anchor))
     # the branch `if command == "sync":`
     branch = None
     for n in ast.walk(fi.node):
